@@ -13,11 +13,12 @@ from .. import fdeval as FD
 from ..facts import AnalysisBroken
 
 BASE = 1 << 16
+TIMETAG = 0x0102030405F6F7F8
 LAYOUTS = ([], [4], [8], [4, 12], [32, 4, 8], [12, 12, 12], [20, 16])
 
 
 def layout_bytes(sizes):
-    b = bytearray(b"#bundle\0") + bytearray(8)
+    b = bytearray(b"#bundle\0") + bytearray(TIMETAG.to_bytes(8, "big"))
     offs = []
     for s in sizes:
         b += s.to_bytes(4, "big")
@@ -72,7 +73,7 @@ def run(unit):
     """-> list of (reader, layout, argument, got, expected) mismatches, number of evaluations"""
     bad = []
     n = 0
-    readers = {q: unit.function(q) for q in ("rtosc_bundle_elements", "rtosc_bundle_fetch", "rtosc_bundle_size", "bundle_ring_length")}
+    readers = {q: unit.function(q) for q in ("rtosc_bundle_elements", "rtosc_bundle_fetch", "rtosc_bundle_size", "bundle_ring_length", "rtosc_bundle_timetag")}
     for sizes in LAYOUTS:
         data, offs, total = layout_bytes(sizes)
         mem = _Mem(data)
@@ -100,8 +101,81 @@ def run(unit):
             n += 1
             if got != s:
                 bad.append({"reader": "rtosc_bundle_size", "element_sizes": sizes, "element": k, "returns": got, "expected": s})
+        got = ev_call("rtosc_bundle_timetag", [BASE])
+        n += 1
+        if got != TIMETAG:
+            bad.append({"reader": "rtosc_bundle_timetag", "element_sizes": sizes, "returns": "%x" % got if isinstance(got, int) else got, "expected": "%x" % TIMETAG})
         got = ev_call("bundle_ring_length", [0], ring=True)
         n += 1
         if got != total:
             bad.append({"reader": "bundle_ring_length", "element_sizes": sizes, "returns": got, "expected": total})
     return bad, n
+
+
+class _Taken(Exception):
+    pass
+
+
+RECOG_PROBES = [
+    (b"#bundle\0" + bytes(8), True),
+    (b"#bundle\0" + bytes(8) + (8).to_bytes(4, "big") + b"/a\0\0,\0\0\0", True),
+    (b"#bundlX\0,\0\0\0", False),
+    (b"/bundle\0,\0\0\0", False),
+    (b"#bundle!\0\0\0\0,\0\0\0", False),
+    (b"#bundl\0\0,\0\0\0", False),
+    (b"#BUNDLE\0,\0\0\0", False),
+    (b"#bundlf\0,\0\0\0", False),
+    (b"/a\0\0,\0\0\0", False),
+]
+
+
+def recognition(unit):
+    """does rtosc_message_ring_length hand exactly the buffers that start with the 8 magic bytes to bundle_ring_length?
+    -> list of mismatches"""
+    fn = unit.function("rtosc_message_ring_length")
+    bad = []
+    for data, expect in RECOG_PROBES:
+        mem = _Mem(data + bytes(8))
+        total = len(data)
+
+        def call(name, vals, n, mem=mem, total=total):
+            if name == "bundle_ring_length":
+                raise _Taken()
+            if name == "deref":
+                pos = vals[0]
+                return mem.data[pos] if 0 <= pos < total else 0
+            fns = [f for f in unit.functions.get(name, []) if unit.body(f) is not None]
+            if len(fns) == 1:
+                return ev.call_function(unit, fns[0], vals)
+            raise FD.Unknown("call to %s" % name, n)
+
+        def hook(n, e, total=total):
+            k = n.get("kind")
+            if k == "MemberExpr" and n.get("name") == "len":
+                base = A.strip_casts(A.kids(n)[0]) if A.kids(n) else {}
+                if base.get("kind") == "ArraySubscriptExpr":
+                    return total if e.ev(A.kids(base)[1]) == 0 else 0
+            if k == "StringLiteral":
+                return ("lit", A.string_literal(n))
+            if k == "InitListExpr" and len(A.kids(n)) == 1 and A.string_literal(A.kids(n)[0]) is not None:
+                return ("lit", A.string_literal(A.kids(n)[0]))
+            if k == "ArraySubscriptExpr":
+                b = e.ev(A.kids(n)[0])
+                if isinstance(b, tuple) and b[0] == "lit":
+                    i = e.ev(A.kids(n)[1])
+                    return ord(b[1][i]) if i < len(b[1]) else 0
+            if k == "UnaryExprOrTypeTraitExpr" and n.get("name") == "sizeof" and A.kids(n):
+                import re as _re
+                m_ = _re.search(r'\[(\d+)\]\s*$', A.qtype(A.strip(A.kids(n)[0])) or "")
+                if m_:
+                    return int(m_.group(1))
+            return NotImplemented
+        ev = FD.Eval(deref=mem.deref, call=call, node_hook=hook, max_steps=20000)
+        try:
+            ev.call_function(unit, fn, [0])
+            taken = False
+        except _Taken:
+            taken = True
+        if taken != expect:
+            bad.append({"buffer_starts_with": data[:9].decode("latin1").replace("\0", "\\0"), "handed_to_bundle_ring_length": taken, "expected": expect})
+    return bad
